@@ -9,14 +9,20 @@ From HV Require Import Base.Prelude Storage.Crc32 Storage.Snappy Storage.C04Read
 Local Open Scope N_scope.
 
 (* For EVERY list of numbers presented as a file, under every tail policy and both code
-   versions: loading (NewFileReader+LoadIndex), ScanBlockHeaders and ReadSwampName end with a
+   versions: loading (NewFileReader+LoadIndex), ScanBlockHeaders, ReadSwampName,
+   CalculateFragmentation and ReadAllBlocks end with a
    result or an error - never OutOfFuel (the block loop is given |b|/16 + 2 iterations: it
    consumes at least 16 bytes per iteration, the model-level "never hangs") and never Panic
    (every slice expression and index of the Go code, modelled with checked slicing, is guarded:
    the model-level "never panics"). *)
 Theorem C04_total : forall pol b,
-  good (fst (read_file_bytes pol b)) /\ good (scan_block_headers b) /\ good (read_swamp_name pol b).
-Proof. intros pol b. exact (conj (read_file_total pol b) (conj (scan_total b) (read_swamp_name_total pol b))). Qed.
+  good (fst (read_file_bytes pol b)) /\ good (scan_block_headers b) /\ good (read_swamp_name pol b) /\
+  good (calc_fragmentation pol b) /\ good (read_all_blocks pol b).
+Proof.
+  intros pol b.
+  exact (conj (read_file_total pol b) (conj (scan_total b) (conj (read_swamp_name_total pol b)
+        (conj (calc_fragmentation_total pol b) (read_all_blocks_total pol b))))).
+Qed.
 Print Assumptions C04_total.
 
 (* The Snappy decoder model itself never indexes out of range nor needs more than
